@@ -80,10 +80,11 @@ ViewVerdict(Bf, X, V) ==
   ELSE "ok"
 
 \* C04.  The property speaks about calls on a consistent circuit: once C05 has reported an inconsistent state,
-\* exceptions of later calls are not judged (program order still is, as long as operations sit at their locations).
+\* exceptions of later calls are not judged; program order still is, as long as operations sit at their locations
+\* and on qudits of their radix (a radix mismatch makes calls reject or skip operations they would otherwise edit).
 V4(s, B, A) ==
   LET v == Validity(s.call, B) IN
-  IF ~OpsAtLocation(B) THEN "ok"
+  IF ~OpsAtLocation(B) \/ RadixBad(B) THEN "ok"
   ELSE IF s.exc # "" THEN (IF v = "valid" /\ s.exc \in Documented /\ WellFormed(B) THEN "valid-call-rejected" ELSE "ok")
   ELSE IF v = "valid" THEN (IF Acceptable(s.call, B, A) THEN "ok" ELSE "program-order")
   ELSE IF s.call.name \in StructureOnlyNames /\ PerQudit(A) # PerQudit(B) THEN "program-order"
